@@ -111,6 +111,26 @@ pub fn gen_build_case(rng: &mut Rng, tier: Tier) -> BuiltCase {
     }
     world.entries.insert(spec.clone(), Entry::Module { src, raw: None, headers: None });
     roots.push(spec);
+    // half of these worlds are built with an npm resolver: valid npm: specifiers then go to it instead
+    // of the loader (static ones in one batch, dynamic ones one by one)
+    if rng.chance(50) {
+      let mut answers = std::collections::BTreeMap::new();
+      for r in ["chalk@5", "@types/node@^20", "left-pad"] {
+        match rng.below(10) {
+          0 | 1 => {
+            answers.insert(r.to_string(), 1u8);
+          }
+          2 => {
+            answers.insert(r.to_string(), 2u8);
+          }
+          _ => {}
+        }
+      }
+      world.npm = Some(answers);
+    }
+  } else if rng.chance(4) {
+    // a resolver with nothing to resolve (the builder still calls it with the empty set)
+    world.npm = Some(Default::default());
   }
   BuiltCase { lock: None, world, roots, bcfg, unstable, max_redirects }
 }
@@ -133,6 +153,7 @@ pub fn real_build_locked(c: &BuiltCase, graph: &mut ModuleGraph, roots: &[String
     .map(|(r, i)| ReferrerImports { referrer: ModuleSpecifier::parse(r).unwrap(), imports: i.clone() })
     .collect();
   let exec = InlineExecutor;
+  let npm = c.world.npm.as_ref().map(|a| crate::world::WorldNpm { answers: a, log: &loader.log });
   let options = BuildOptions {
     is_dynamic: c.bcfg.is_dynamic,
     skip_dynamic_deps: c.bcfg.skip_dynamic_deps,
@@ -140,6 +161,7 @@ pub fn real_build_locked(c: &BuiltCase, graph: &mut ModuleGraph, roots: &[String
     unstable_text_imports: c.unstable.1,
     unstable_css_imports: c.unstable.2,
     passthrough_jsr_specifiers: c.world.passthrough_jsr,
+    npm_resolver: npm.as_ref().map(|r| r as &dyn deno_graph::source::NpmResolver),
     executor: &exec,
     locker: if c.lock.is_some() { Some(&mut locker) } else { None },
     ..Default::default()
@@ -213,6 +235,7 @@ pub fn gen_case(seed: u64, k: u64, tier: Tier) -> Case {
       (if has_dyn { "with_dynamic".into() } else { "no_dynamic".into() }, 1),
       (if has_asset { "with_asset_load".into() } else { "no_asset_load".into() }, 1),
       ("loader_calls".to_string(), log.len() as u64),
+      (format!("npm_resolver_{}", c.world.npm.is_some()), 1),
       (format!("npm_specifier_entries_{}", graph.specifiers().filter(|(s, _)| s.scheme() == "npm").count().min(3)), 1),
       (format!("jsr_passthrough_{}_entries_{}", c.world.passthrough_jsr, graph.specifiers().filter(|(s, _)| s.scheme() == "jsr").count().min(3)), 1),
     ],
